@@ -607,6 +607,11 @@ func (mgr *Manager) invalidateTags(updatedStreams, resetStreams, addedStreams bi
 	for tn, ti := range mgr.tags {
 		tin := *ti
 		if ti.features.SubQueryFeatures != 0 {
+			// nothing changed: the tag stays as decided as it is (the completion of a tagging job invalidates
+			// with whatever happened while it ran, which is usually nothing)
+			if updatedStreams.IsZero() && resetStreams.IsZero() && addedStreams.IsZero() {
+				continue
+			}
 			//TODO: is a matching stream really uncertain?
 			tin.Uncertain = mgr.allStreams
 		} else if ti.features.MainFeatures&^query.FeatureFilterID == 0 {
